@@ -135,7 +135,7 @@ SOURCES = {
     'C06': ('unroll', 'unroll2', 'nest', 'sim'),
     'C07': ('acq', 'sim'),
     'C11': ('flatten', 'flatdir', 'sim'),
-    'C03': ('hist', 'sim'),
+    'C03': ('hist', 'plothist', 'sim'),
 }
 
 
@@ -239,6 +239,13 @@ M_Init == /\\ heap = DoNewCircuit(DoAddOp(DoNewCircuit(<<>>, "n1", NoLink, <<"fi
       obskinds=('full', 'plot', 'stim', 'ops'),
       max_objs=10, max_steps=9, simulate='num=%d' % (200 if quick else 3000), depth=10, min_emit=5, one_in=2, cap=1200 if quick else 15000, timeout=120,
       keep=lambda p: any(s['a'] == 'Obs' for s in p[:-1]))
+    # (2i) exhaustive, tiny alphabet: drawing (compact / non-compact) inside and outside a global-duration override, operations
+    #      whose own duration does / does not depend on the global settings
+    g('plothist', [gen.leaf('Rx180', [0], [[0, 'MICROWAVE']], ['global', 'MW']), gen.leaf('Barrier', [0, 1], [[0, 'ALL'], [1, 'ALL']], ['fixed', 2]),
+                   gen.leaf('DispersiveMeasure', [1], [[1, 'READOUT']], ['global', 'RO'])],
+      configs=(gen.DEFAULT_CFG, CFG_A), acts=('NewCircuit', 'AddOp', 'Enter', 'Leave', 'Obs'), linktypes=(), max_circs=1, max_objs=5,
+      max_steps=7, obskinds=('plot', 'plotnc'), workers=8, min_emit=4, timeout=120, cap=1500 if quick else 20000,
+      keep=lambda p: any(s['a'] == 'Obs' for s in p) and any(s['a'] == 'Enter' for s in p))
     # (3) simulation: long programs over the full alphabet, overrides, registry durations, copies, unrolling
     full = waits(Q3, chans=('ALL', 'MICROWAVE', 'FLUX'), durs=(0, 2, 6), reg=True) + gates(Q3) + meas(Q3) + two(Q3)
     g('sim', full, reps=[('fixed', 1), ('fixed', 2), ('fixed', 3), ('reg', 'r1')], configs=(gen.DEFAULT_CFG, CFG_A, CFG_B),
